@@ -19,7 +19,7 @@ def main():
     seed = int(os.environ.get('VERIF_SEED', '1'))
     if a.pid == 'setup':
         errs = common.regen()
-        ok, log = common.lake_build(['OpenFecVerif', 'ofmodel'])
+        ok, log = common.lake_build(['OpenFecVerif', 'OpenFecVerif.All', 'ofmodel'])
         print(log[-3000:])
         # a failing proof at setup time is reported by the checks themselves; setup only needs the tools
         common.model_exe()
